@@ -188,10 +188,12 @@ theorem batch_facts (s : Sys) (x : SideId) (lo : Nat) (gs : List Segment) (t t' 
 /-- after `read x` in ESTABLISHED -/
 theorem read_facts (s : Sys) (x : SideId) (t : Tcb) (ht : (s.side x).tcb = some t) (hst : t.state = .Established) :
     ∃ s1 r, s.step (.read x) = .ok (s1, r) ∧ (s1.side x).tcb = some { t with incoming.text := [] } ∧
-      s1.side x.peer = s.side x.peer ∧ (s1.side x).submitted = (s.side x).submitted := by
-  refine ⟨_, _, sys_read s x t ht, ?_, ?_, ?_⟩
+      s1.side x.peer = s.side x.peer ∧ (s1.side x).submitted = (s.side x).submitted ∧
+      s1.historyLen = s.historyLen := by
+  refine ⟨_, _, sys_read s x t ht, ?_, ?_, ?_, ?_⟩
   · rw [side_setSide_same, receive_established t hst]
   · rw [side_setSide_peer]
   · rw [side_setSide_same]
+  · rw [historyLen_setSide]
 
 end Elvis.Tcp
